@@ -31,7 +31,19 @@ CLAIMS = {
         "note": "Assumes dependencies are deterministic; default feature set; decides the purity argument, not runtime behaviour of threads.",
         "technique": "MIR census + dataflow (statics/unsafe/ambient-API census, hash-iteration neutralisation check)",
     },
+    "C11": {
+        "text": "Structural decision that scale multiplies every length exactly once and nothing else: per fragment type, each length-typed field of the value returned by `scale` is `self.field x scale` (expression reconstructed from MIR, closures followed), other fields do not mention scale; Fragment/FragmentSpan dispatch covers all variants; every Fragment->Node conversion receives a value scaled on every call path (call-graph dominators); canvas size carries settings.scale once; Settings.scale is read nowhere else; default scale 8 and cell 1x2 constants.",
+        "design_ref": "DESIGN.md section 4 C11",
+        "note": "Decides the shape of the arithmetic, not f32 rounding; the Node conversions are assumed to emit the fields they are given (attribute mapping is checked for Rect under C05).",
+        "technique": "MIR expression reconstruction + pattern rules, call-graph dominators, field read census",
+    },
+    "C18": {
+        "text": "Structural decision on the node builder and entry points: each include_* switch guards exactly its own child (control dependence on the true edge), fragment children/root are unconditional, each switch is read once; cosmetic settings are read only by the style-sheet builder; override size flows only into width/height attributes and fragment nodes do not depend on it; sibling builders and entry points build the same node expression (pretty = compressed modulo render method, to_svg = pretty, get_node = default settings, override = sized with w,h substituted).",
+        "design_ref": "DESIGN.md section 4 C18",
+        "note": "Trusts sauron's render/render_to_string to differ only in whitespace; decides control dependence and read sets, not the rendered bytes.",
+        "technique": "MIR control dependence (post-dominators), field read census, sibling expression comparison",
+    },
 }
 
 NOT_APPLICABLE = {p: _PENDING for p in
-                  ["C01", "C02", "C03", "C04", "C05", "C06", "C08", "C09", "C10", "C11", "C12", "C13", "C14", "C15", "C16", "C17", "C18", "C19", "C20"]}
+                  ["C01", "C02", "C03", "C04", "C05", "C06", "C08", "C09", "C10", "C12", "C13", "C14", "C15", "C16", "C17", "C19", "C20"]}
